@@ -9,6 +9,7 @@ package main
 
 import (
 	crand "crypto/rand"
+	"encoding/json"
 	"errors"
 	"fmt"
 	"go/ast"
@@ -17,6 +18,7 @@ import (
 	"io"
 	mrand "math/rand"
 	"os"
+	"os/exec"
 	"path/filepath"
 	"sort"
 	"strconv"
@@ -29,7 +31,7 @@ import (
 
 type pkgIndex struct {
 	fset    *token.FileSet
-	funcs   map[string]*ast.FuncDecl       // "Func" or "Type.Method"
+	funcs   map[string]*ast.FuncDecl        // "Func" or "Type.Method"
 	imports map[*ast.File]map[string]string // local name -> path
 	fileOf  map[*ast.FuncDecl]*ast.File
 }
@@ -380,42 +382,49 @@ func runC06(c *Ctx) {
 			recovered++
 			if recovered == 1 {
 				c.Sum.GoFindings = append(c.Sum.GoFindings, Finding{Signature: "C06/session-id-recovered-from-public-values",
-					What: fmt.Sprintf("the session id of a login was computed from its public state and nonce and the call's time window (%d candidate seeds tried)", tried),
+					What:   fmt.Sprintf("the session id of a login was computed from its public state and nonce and the call's time window (%d candidate seeds tried)", tried),
 					Replay: map[string]any{"state": state, "nonce": nonce, "window_ns": []int64{t0.UnixNano(), t1.UnixNano()}, "recovered_session_id": sid, "seeds_tried": tried}})
 			}
 		}
 	}
 	// (2b) the same question when the entropy source fails: whatever the generator hands out then (instead of failing) is attacked too,
 	// with a fresh clock-seeded stream per value as the candidate model
-	orig := crand.Reader
+	// the draw itself runs in a child process: a generator that reads with crypto/rand.Read does not panic when the
+	// entropy source fails, the runtime aborts the process (which is a refusal, too)
+	exe, _ := os.Executable()
 	for fails := 1; fails <= 4; fails++ {
-		func() {
-			crand.Reader = &failingReader{left: fails, next: orig}
-			defer func() { crand.Reader = orig }()
-			var sid, nonce, state string
-			t0 := time.Now()
-			panicked := func() (p bool) {
-				defer func() { p = recover() != nil }()
-				g := oidc.NewRandomGenerator()
-				sid, nonce, state = g.GenerateSessionID(), g.GenerateNonce(), g.GenerateState()
-				return false
-			}()
-			t1 := time.Now()
-			crand.Reader = orig
-			c.Sum.Evaluations++
-			if panicked || sid == "" {
-				c.Hist("entropy_failure", "generator refuses (panic)")
-				return
+		cmd := exec.Command(exe, "-out", filepath.Join(c.Out, "entropy-child"), "C06-entropy-child")
+		cmd.Env = append(os.Environ(), fmt.Sprint("ENTROPY_FAILS=", fails))
+		outb, err := cmd.Output()
+		c.Sum.Evaluations++
+		var res struct {
+			Panicked          bool
+			Sid, Nonce, State string
+			T0, T1            int64
+		}
+		line := ""
+		for _, l := range strings.Split(string(outb), "\n") {
+			if strings.HasPrefix(l, "ENTROPY-RESULT ") {
+				line = strings.TrimPrefix(l, "ENTROPY-RESULT ")
 			}
-			c.Hist("entropy_failure", "values handed out")
-			ok1, tried1 := seedAttack(t0, t1, sid, nonce, state)
-			ok2, tried2 := perValueSeedAttack(t0, t1, sid)
-			if ok1 || ok2 {
-				c.Sum.GoFindings = append(c.Sum.GoFindings, Finding{Signature: "C06/session-id-recovered-when-entropy-fails",
-					What: fmt.Sprintf("with the first %d reads of the entropy source failing, the generator handed out a session id that lies in the candidate list computed from the call's time window alone (%d candidates)", fails, tried1+tried2),
-					Replay: map[string]any{"failing_reads": fails, "state": state, "nonce": nonce, "window_ns": []int64{t0.UnixNano(), t1.UnixNano()}, "recovered_session_id": sid}})
-			}
-		}()
+		}
+		if err != nil || line == "" || json.Unmarshal([]byte(line), &res) != nil {
+			c.Hist("entropy_failure", "generator refuses (process aborted by the runtime)")
+			continue
+		}
+		if res.Panicked || res.Sid == "" {
+			c.Hist("entropy_failure", "generator refuses (panic)")
+			continue
+		}
+		c.Hist("entropy_failure", "values handed out")
+		t0, t1 := time.Unix(0, res.T0), time.Unix(0, res.T1)
+		ok1, tried1 := seedAttack(t0, t1, res.Sid, res.Nonce, res.State)
+		ok2, tried2 := perValueSeedAttack(t0, t1, res.Sid)
+		if ok1 || ok2 {
+			c.Sum.GoFindings = append(c.Sum.GoFindings, Finding{Signature: "C06/session-id-recovered-when-entropy-fails",
+				What:   fmt.Sprintf("with the first %d reads of the entropy source failing, the generator handed out a session id that lies in the candidate list computed from the call's time window alone (%d candidates)", fails, tried1+tried2),
+				Replay: map[string]any{"failing_reads": fails, "state": res.State, "nonce": res.Nonce, "window_ns": []int64{res.T0, res.T1}, "recovered_session_id": res.Sid}})
+		}
 	}
 	// (3) relation battery
 	seen := map[string]bool{}
@@ -470,4 +479,23 @@ func runC06(c *Ctx) {
 
 func boolPtr(b bool) *bool { return &b }
 
-func init() { props["C06"] = runC06 }
+// the child of the entropy-failure probe: draw one login's values with the first ENTROPY_FAILS reads of crypto/rand.Reader failing
+func runC06EntropyChild(c *Ctx) {
+	fails, _ := strconv.Atoi(os.Getenv("ENTROPY_FAILS"))
+	orig := crand.Reader
+	crand.Reader = &failingReader{left: fails, next: orig}
+	var sid, nonce, state string
+	t0 := time.Now()
+	panicked := func() (p bool) {
+		defer func() { p = recover() != nil }()
+		g := oidc.NewRandomGenerator()
+		sid, nonce, state = g.GenerateSessionID(), g.GenerateNonce(), g.GenerateState()
+		return false
+	}()
+	t1 := time.Now()
+	crand.Reader = orig
+	js, _ := json.Marshal(map[string]any{"Panicked": panicked, "Sid": sid, "Nonce": nonce, "State": state, "T0": t0.UnixNano(), "T1": t1.UnixNano()})
+	fmt.Println("ENTROPY-RESULT " + string(js))
+}
+
+func init() { props["C06"] = runC06; props["C06-entropy-child"] = runC06EntropyChild }
